@@ -396,6 +396,9 @@ func (x *Exec) applyContract(st *State, in ssa.Instruction, fc *FuncContract, si
 		st.assume(g)
 	}
 	pre := st.snapshotView()
+	// results are created before the frame so that assigns clauses may name locations of the result
+	res := x.freshResults(st, sig, smtName(calleeName))
+	bindResults(env.names, sig, res)
 	// frame
 	switch {
 	case fc.AssignsNone:
@@ -414,9 +417,7 @@ func (x *Exec) applyContract(st *State, in ssa.Instruction, fc *FuncContract, si
 		}
 	}
 	x.havocPointerArgs(st, args, true)
-	// results
-	res := x.freshResults(st, sig, smtName(calleeName))
-	penv := &Env{x: x, st: st, old: pre, names: cloneNames(names), pkg: pkg, pkgPath: fc.PkgPath}
+	penv := &Env{x: x, st: st, old: pre, names: cloneNames(names), pkg: pkg, pkgPath: fc.PkgPath, dropGuards: true}
 	bindResults(penv.names, sig, res)
 	if fc.Pure {
 		// result is a deterministic function of the arguments' leaves
@@ -688,9 +689,23 @@ func (x *Exec) appendOp(st *State, rt types.Type, s, e *Value) *Value {
 			continue
 		}
 		na := x.fresh(st, "appc", fmt.Sprintf("(Array Int %s)", l.Sort))
-		st.assume(fmt.Sprintf("(forall ((qi Int)) (=> (and (<= 0 qi) (< qi %s)) (= (select %s qi) (select (select %s %s) (+ %s qi)))))", n1, na, a, s.Fs[0].Term, s.Fs[1].Term))
-		st.assume(fmt.Sprintf("(forall ((qi Int)) (=> (and (<= 0 qi) (< qi %s)) (= (select %s (+ %s qi)) (select (select %s %s) (+ %s qi)))))", n2, na, n1, a, e.Fs[0].Term, e.Fs[1].Term))
+		st.assume(fmt.Sprintf("(forall ((qi Int)) (! (=> (and (<= 0 qi) (< qi %s)) (= (select %s qi) (select (select %s %s) %s))) :pattern ((select %s qi))))", n1, na, a, s.Fs[0].Term, sidxTerm(s.Fs[1].Term, "qi"), na))
+		if k2c, isC := constInt(n2); isC && k2c <= 4 {
+			for j := 0; j < k2c; j++ {
+				st.assume(fmt.Sprintf("(= (select %s (+ %s %d)) (select (select %s %s) %s))", na, n1, j, a, e.Fs[0].Term, sidxTerm(e.Fs[1].Term, fmt.Sprint(j))))
+			}
+		} else {
+			st.assume(fmt.Sprintf("(forall ((qi Int)) (=> (and (<= 0 qi) (< qi %s)) (= (select %s (+ %s qi)) (select (select %s %s) %s))))", n2, na, n1, a, e.Fs[0].Term, sidxTerm(e.Fs[1].Term, "qi")))
+		}
 		x.setHeapArr(st, key, l.Sort, fmt.Sprintf("(store %s %s %s)", a, arr, na))
 	}
 	return &Value{K: KSlice, T: rt, Fs: []*Value{leaf(types.Typ[types.Int], arr), leaf(types.Typ[types.Int], "0"), leaf(types.Typ[types.Int], newLen)}}
+}
+
+// sidxTerm: element index off+i in the trigger-friendly form used everywhere for slice elements.
+func sidxTerm(off, i string) string {
+	if off == "0" {
+		return i
+	}
+	return fmt.Sprintf("(sidx %s %s)", off, i)
 }
